@@ -45,12 +45,12 @@ Section Ws.
                     = sopt (node_of2 cx (apply_adelta ps (a_delta spc)) (p' + length (item_ws2 a')) a'))
           by (apply NN; [lia|exact Wa]).
         destruct (a_kind spc) as [sp0|? ? ? ?|ch sp full|?]; try exact G.
-        * destruct a as [ws cs| |ws nm post ma| | | | |ws ch sa| |];
-            destruct a' as [ws' cs'| |ws' nm' post' ma'| | | | |ws' ch' sa'| |]; try contradiction; try exact G.
+        * destruct a as [ws cs| |ws nm post ma| | | | |ws ch sa| | | |];
+            destruct a' as [ws' cs'| |ws' nm' post' ma'| | | | |ws' ch' sa'| | | |]; try contradiction; try exact G.
           -- cbn [wsv2] in Wa. destruct Wa as [_ <-]. reflexivity.
           -- cbn [wsv2] in Wa. destruct Wa as (_ & <- & _). reflexivity.
           -- cbn [wsv2] in Wa. destruct Wa as (_ & <- & _). reflexivity.
-        * destruct a as [ws cs| | | | | | | | |]; destruct a' as [ws' cs'| | | | | | | | |]; try contradiction; try exact G.
+        * destruct a as [ws cs| | | | | | | | | | |]; destruct a' as [ws' cs'| | | | | | | | | | |]; try contradiction; try exact G.
           cbn [wsv2] in Wa. destruct Wa as [_ <-]. destruct full; reflexivity.
       + apply IH; [lia|exact Wr].
   Qed.
@@ -58,8 +58,8 @@ Section Ws.
   Lemma node_step2 n : NodeN2 n -> ListN2 n -> NodeN2 (S n).
   Proof.
     intros NN LN i i' SZ W ps p p'.
-    destruct i as [ws cs|ws b tr|ws name post args|ws k b tr|ws text post|ws mid|ws bws name args b tr ews|ws chars args|ws oc cc b tr|];
-      destruct i' as [ws' cs'|ws' b' tr'|ws' name' post' args'|ws' k' b' tr'|ws' text' post'|ws' mid'|ws' bws' name' args' b' tr' ews'|ws' chars' args'|ws' oc' cc' b' tr'|];
+    destruct i as [ws cs|ws b tr|ws name post args|ws k b tr|ws text post|ws mid|ws bws name args b tr ews|ws chars args|ws name post dc text|ws bws name oarg text|ws oc cc b tr|];
+      destruct i' as [ws' cs'|ws' b' tr'|ws' name' post' args'|ws' k' b' tr'|ws' text' post'|ws' mid'|ws' bws' name' args' b' tr' ews'|ws' chars' args'|ws' name' post' dc' text'|ws' bws' name' oarg' text'|ws' oc' cc' b' tr'|];
       try contradiction; cycle 4.
     - cbn [wsv2] in W. destruct W as (W1 & <- & W2). repeat split.
     - cbn [node_of2]. destruct (par_spec_ok cx); repeat split.
@@ -94,6 +94,29 @@ Section Ws.
                    | None :: r => None :: sa r
                    end) x = structure_args x) by reflexivity.
       rewrite !E. erewrite (args_struct2 n NN args args'); [reflexivity|lia|exact W3].
+    - (* the verbatim macro *)
+      cbn [wsv2] in W. destruct W as (W1 & <- & W2 & <- & <-). repeat split.
+    - (* a verbatim environment *)
+      cbn [wsv2] in W. destruct W as (W1 & <- & <- & W3). fold (wsv_items2 oarg oarg') in W3.
+      cbn [isize2] in SZ. fold (lsize2 oarg) in SZ.
+      destruct (get_env_spec cx name) as [sp|] eqn:GS; [|cbn [node_of2]; rewrite GS; repeat split].
+      destruct (sp_args sp) as [l|[|vn optarg]] eqn:SA;
+        [cbn [node_of2]; rewrite GS, SA; repeat split|cbn [node_of2]; rewrite GS, SA; repeat split|].
+      rewrite !(node_of_venv2 cx ps _ _ _ name _ _ sp vn optarg GS SA). cbn zeta. cbn [sopt oblank is_blank_node structure].
+      repeat split.
+      assert (E : forall x, (fix sa (l0 : list (option node)) : list (option node) :=
+                   match l0 with
+                   | [] => []
+                   | Some x0 :: r => Some (structure x0) :: sa r
+                   | None :: r => None :: sa r
+                   end) x = structure_args x) by reflexivity.
+      rewrite !E, !structure_gen_nodelist.
+      destruct oarg as [|a [|? ?]]; destruct oarg' as [|a' [|? ?]]; cbn [wsv_items2] in W3; try tauto; cbn [fst snd app].
+      destruct W3 as [Wa _]. rewrite !structure_args_cons. cbn [lsize2 fold_right] in SZ.
+      replace (sopt (node_of2 cx ps (p + length (begin_str bws name)) a))
+        with (sopt (node_of2 cx ps (p' + length (begin_str bws' name)) a'))
+        by (symmetry; apply NN; [lia|exact Wa]).
+      destruct (node_of2 cx ps (p' + length (begin_str bws' name)) a'); reflexivity.
     - (* delimited argument *)
       cbn [wsv2] in W. destruct W as (W1 & <- & <- & W2 & W3). fold (wsv_items2 b b') in W3.
       cbn [isize2] in SZ. fold (lsize2 b) in SZ.
@@ -135,8 +158,8 @@ Section Ws.
     rewrite lsize_cons2 in SZ. pose proof (isize_pos2 i). rewrite !absorb_cons2.
     apply LN; [lia|exact Wr|].
     destruct (NN i i' ltac:(lia) Wi ps (p + length (item_ws2 i)) (p' + length (item_ws2 i'))) as (N1 & N2 & N3).
-    destruct i as [ws cs|ws b tr|ws name post args|ws k b tr|ws text post|ws mid|ws bws name args b tr ews|ws chars args|ws oc cc b tr|];
-      destruct i' as [ws' cs'|ws' b' tr'|ws' name' post' args'|ws' k' b' tr'|ws' text' post'|ws' mid'|ws' bws' name' args' b' tr' ews'|ws' chars' args'|ws' oc' cc' b' tr'|];
+    destruct i as [ws cs|ws b tr|ws name post args|ws k b tr|ws text post|ws mid|ws bws name args b tr ews|ws chars args|ws name post dc text|ws bws name oarg text|ws oc cc b tr|];
+      destruct i' as [ws' cs'|ws' b' tr'|ws' name' post' args'|ws' k' b' tr'|ws' text' post'|ws' mid'|ws' bws' name' args' b' tr' ews'|ws' chars' args'|ws' name' post' dc' text'|ws' bws' name' oarg' text'|ws' oc' cc' b' tr'|];
       try contradiction; cbn [absorb_item2 item_ws2] in *.
     - cbn [wsv2] in Wi. destruct Wi as [W1 <-]. apply cs_push_pending; [exact C|].
       apply feq_app. apply wse_feq. exact W1.
@@ -145,6 +168,8 @@ Section Ws.
     - apply cs_push_node; [|exact N1|congruence]. apply cs_pre_flush; [exact C|]. cbn [wsv2] in Wi. tauto.
     - apply cs_push_node; [|exact N1|congruence]. apply cs_pre_flush; [exact C|]. cbn [wsv2] in Wi. tauto.
     - apply cs_push_node; [|exact N1|congruence]. apply cs_pre_flush; [exact C|]. cbn [wsv2] in Wi. exact Wi.
+    - apply cs_push_node; [|exact N1|congruence]. apply cs_pre_flush; [exact C|]. cbn [wsv2] in Wi. tauto.
+    - apply cs_push_node; [|exact N1|congruence]. apply cs_pre_flush; [exact C|]. cbn [wsv2] in Wi. tauto.
     - apply cs_push_node; [|exact N1|congruence]. apply cs_pre_flush; [exact C|]. cbn [wsv2] in Wi. tauto.
     - apply cs_push_node; [|exact N1|congruence]. apply cs_pre_flush; [exact C|]. cbn [wsv2] in Wi. tauto.
     - apply cs_push_node; [|exact N1|congruence]. apply cs_pre_flush; [exact C|]. cbn [wsv2] in Wi. tauto.
